@@ -25,7 +25,7 @@ import (
 	"verifharness/vh"
 )
 
-var strPool = []string{"a", "A", "ab", "aB", "Ab", "AB", "abc", "ABC", "abd", "b", "B", "ba", "Z", "z", "é", "É", "ß", "ǅ", "İ", "ı", "\x00", "a\x00", "\xff", "\xfe\xff", "a\xff", "_delete", "_DELETE", "Σ", "σ", "ς",
+var strPool = []string{"a", "A", "ab", "aB", "Ab", "AB", "abc", "ABC", "abd", "b", "B", "ba", "Z", "z", "é", "É", "ß", "ǅ", "İ", "ı", "\x00", "a\x00", "\xff", "\xfe\xff", "a\xff", "a\xff\x00", "a\xff\xff", "\xff\xff\x01", "ab\xffz", "_delete", "_DELETE", "Σ", "σ", "ς",
 	strings.Repeat("x", 200), strings.Repeat("X", 199) + "y"}
 
 var intPool = []int64{math.MinInt64, math.MinInt64 + 1, -1 << 32, -1 << 31, -257, -256, -255, -2, -1, 0, 1, 2, 127, 128, 255, 256, 1 << 31, 1 << 32, math.MaxInt64 - 1, math.MaxInt64}
@@ -283,20 +283,32 @@ func project(doc map[string]any, path string) map[string]any {
 	return cur.(map[string]any)
 }
 
-// tryFresh: does the failing query still fail on a fresh shard that holds exactly pts (one insert)?
-func (g *Gen) tryFresh(idx []IdxSpec, pts []Pt, q *Q) (bool, []string) {
+func copyOp(o *Op) *Op {
+	c := *o
+	c.Pts = make([]Pt, len(o.Pts))
+	for i, p := range o.Pts {
+		c.Pts[i] = Pt{Label: p.Label, Node: p.Node, Doc: deepCopy(p.Doc).(map[string]any)}
+	}
+	c.Labels = append([]string{}, o.Labels...)
+	return &c
+}
+
+// tryOps: does the query still violate the oracle after running the write ops on a fresh shard?
+func (g *Gen) tryOps(idx []IdxSpec, ops []*Op, q *Q) (bool, []string) {
 	w2 := NewWorld(g.tmp)
 	defer w2.Close()
 	var lines []string
-	run := func(o *Op) *Failure {
-		_, f := w2.Exec(o)
+	run := func(o *Op) (string, *Failure) {
+		a, f := w2.Exec(o)
 		lines = append(lines, o.Line())
-		return f
+		return a, f
 	}
 	run(&Op{Kind: "schema", Backend: g.w.backend, Idx: idx})
 	var ss []string
-	for _, p := range pts {
-		collectStrings(p.Doc, &ss)
+	for _, o := range ops {
+		for _, p := range o.Pts {
+			collectStrings(p.Doc, &ss)
+		}
 	}
 	q.strings(&ss)
 	done := map[string]bool{}
@@ -306,53 +318,113 @@ func (g *Gen) tryFresh(idx []IdxSpec, pts []Pt, q *Q) (bool, []string) {
 			run(&Op{Kind: "lower", Raw: s, Low: l})
 		}
 	}
-	if len(pts) > 0 {
-		cp := make([]Pt, len(pts))
-		for i, p := range pts {
-			cp[i] = Pt{Label: p.Label, Doc: deepCopy(p.Doc).(map[string]any)}
+	for _, o := range ops {
+		if a, _ := run(copyOp(o)); a != "ok" {
+			return false, nil // never turn a replay into a rejected batch
 		}
-		run(&Op{Kind: "insert", Pts: cp})
 	}
-	f := run(&Op{Kind: "search", Q: q})
+	_, f := run(&Op{Kind: "search", Q: q})
 	return f != nil, lines
 }
 
-// replayFor: first try a fresh shard holding the current documents (one insert) + the failing query,
-// then shrink it (only the queried index, fewer points); if the failure does not reproduce on a fresh
-// shard it depends on the history, and the write history is the replay.
+// restrict a write op to the top-level key of path (documents and patches are shallow at the top level)
+func restrictOp(o *Op, path string) *Op {
+	top := strings.SplitN(path, ".", 2)[0]
+	c := copyOp(o)
+	for i := range c.Pts {
+		d := map[string]any{}
+		if v, ok := c.Pts[i].Doc[top]; ok {
+			d[top] = v
+		}
+		c.Pts[i].Doc = d
+	}
+	return c
+}
+
+// replayFor builds a small replay for an oracle failure: (1) a fresh shard holding the current documents
+// (one insert) + the query, shrunk to the queried index and to few points; (2) if the failure does not
+// reproduce on a fresh shard it depends on the write history: the history is replayed and shrunk
+// greedily (drop batches, keep only the queried property).
 func (g *Gen) replayFor(op *Op, fail *Failure) string {
 	var pts []Pt
 	for _, l := range sortedKeys(g.w.docs) {
 		pts = append(pts, Pt{Label: l, Doc: g.w.docs[l]})
 	}
-	ok, lines := g.tryFresh(g.w.idx, pts, fail.Q)
-	if !ok {
-		var hist []string
-		for _, l := range g.w.Hist {
-			if !strings.HasPrefix(l, "search ") && !strings.HasPrefix(l, "dump ") {
-				hist = append(hist, l)
+	one := g.w.idx
+	if fail.Q.Path != "" {
+		one = []IdxSpec{{fail.Q.Path, g.w.kind[fail.Q.Path]}}
+	}
+	var ins []*Op
+	if len(pts) > 0 {
+		ins = []*Op{{Kind: "insert", Pts: pts}}
+	}
+	if ok, lines := g.tryOps(g.w.idx, ins, fail.Q); ok {
+		idx := g.w.idx
+		if fail.Q.Path != "" {
+			proj := &Op{Kind: "insert"}
+			for _, p := range pts {
+				proj.Pts = append(proj.Pts, Pt{Label: p.Label, Doc: project(p.Doc, fail.Q.Path)})
+			}
+			if ok2, l2 := g.tryOps(one, []*Op{proj}, fail.Q); ok2 {
+				idx, pts, lines = one, proj.Pts, l2
 			}
 		}
-		hist = append(hist, (&Op{Kind: "search", Q: fail.Q}).Line())
-		return strings.Join(hist, "\n")
+		for i := 0; i < len(pts); {
+			cand := append(append([]Pt{}, pts[:i]...), pts[i+1:]...)
+			var ops []*Op
+			if len(cand) > 0 {
+				ops = []*Op{{Kind: "insert", Pts: cand}}
+			}
+			if ok2, l2 := g.tryOps(idx, ops, fail.Q); ok2 {
+				pts, lines = cand, l2
+			} else {
+				i++
+			}
+		}
+		return strings.Join(lines, "\n")
 	}
+	// history dependent
+	hist := g.w.Writes
 	idx := g.w.idx
-	if fail.Q.Path != "" {
-		one := []IdxSpec{{fail.Q.Path, g.w.kind[fail.Q.Path]}}
-		var proj []Pt
-		for _, p := range pts {
-			proj = append(proj, Pt{Label: p.Label, Doc: project(p.Doc, fail.Q.Path)})
+	ok, lines := g.tryOps(idx, hist, fail.Q)
+	if !ok {
+		// not even the replayed history reproduces it (order of a Go map?): give the raw history
+		var raw []string
+		for _, l := range g.w.Hist {
+			if !strings.HasPrefix(l, "search ") && !strings.HasPrefix(l, "dump ") {
+				raw = append(raw, l)
+			}
 		}
-		if ok2, l2 := g.tryFresh(one, proj, fail.Q); ok2 {
-			idx, pts, lines = one, proj, l2
+		return strings.Join(append(raw, (&Op{Kind: "search", Q: fail.Q}).Line()), "\n")
+	}
+	if fail.Q.Path != "" {
+		var r []*Op
+		for _, o := range hist {
+			r = append(r, restrictOp(o, fail.Q.Path))
+		}
+		if ok2, l2 := g.tryOps(one, r, fail.Q); ok2 {
+			idx, hist, lines = one, r, l2
 		}
 	}
-	for i := 0; i < len(pts); {
-		cand := append(append([]Pt{}, pts[:i]...), pts[i+1:]...)
-		if ok2, l2 := g.tryFresh(idx, cand, fail.Q); ok2 {
-			pts, lines = cand, l2
+	for i := 0; i < len(hist); {
+		cand := append(append([]*Op{}, hist[:i]...), hist[i+1:]...)
+		if ok2, l2 := g.tryOps(idx, cand, fail.Q); ok2 {
+			hist, lines = cand, l2
 		} else {
 			i++
+		}
+	}
+	// fewer points per batch
+	for i := 0; i < len(hist); i++ {
+		for j := 0; j < len(hist[i].Pts) && len(hist[i].Pts) > 1; {
+			c := copyOp(hist[i])
+			c.Pts = append(c.Pts[:j], c.Pts[j+1:]...)
+			cand := append(append(append([]*Op{}, hist[:i]...), c), hist[i+1:]...)
+			if ok2, l2 := g.tryOps(idx, cand, fail.Q); ok2 {
+				hist, lines = cand, l2
+			} else {
+				j++
+			}
 		}
 	}
 	return strings.Join(lines, "\n")
